@@ -73,6 +73,22 @@ def resScript (bound : Nat → Nat) (k n : Nat) : List Nat := (List.range' k (n 
 def randomTips (t : T) (k : Nat) (draws : List Nat) : List String :=
   reservoir k t.tipNames draws
 
+/-- Which tips `gotree prune` hands to `RemoveTips` (cmd/prune.go RunE), by order of priority:
+    `-f` tip file > `-c` compared tree (the tips of the input that it lacks, `specificTips`) >
+    `--random k` with `k > 0` (`randomTips`) > the names on the command line.  Only the third
+    branch draws. -/
+def pruneSelection (tipfile : Option (List String)) (comp : Option (List String)) (random : Int)
+    (args : List String) (t : T) (draws : List Nat) : List String :=
+  match tipfile with
+  | some l => l
+  | none =>
+    match comp with
+    | some ctips => t.tipNames.filter fun x => !ctips.contains x
+    | none => if random > 0 then randomTips t random.toNat draws else args
+
+def pruneSelectionScript (tipfile comp : Bool) (random : Int) (n : Nat) : List Nat :=
+  if !tipfile && !comp && random > 0 then resScript (· + 1) random.toNat n else []
+
 /-! ## reservoir with replacement (cmd/sample.go:61-79) -/
 
 /-- `for j := 0; j < numtrees; j++ { r := rand.Intn(totaltrees); if r == 0 { out[j] = t } }` -/
@@ -96,6 +112,36 @@ def sampleReplace (k : Nat) (items : List α) (draws : List Nat) : List (Option 
 /-- item `t` (0-based) makes `k` calls `Intn(t+1)` -/
 def replScript (k n : Nat) : List Nat := (List.range n).flatMap fun t => List.replicate k (t + 1)
 
+/-! ## the `gotree sample` command as a whole (cmd/sample.go RunE) -/
+
+inductive CmdRes (α : Type) where
+  | ok (out : List α)      -- exit 0, these trees written (one Newick line each)
+  | err                    -- an error is logged and returned, nothing is written
+  | panic                  -- the process dies
+  deriving Repr, BEq
+
+/-- `k` = `--nbtrees`; `opened` = `readTrees` could open the input; `items` = what the reader's
+    channel delivers, in order: a tree (`some`) or an error (`none`; the reader stops there —
+    an input holding no tree at all is delivered as one error, `EOF`).
+    `outtrees := make([]*tree.Tree, numtrees)` comes first (a negative size panics); the first
+    error item makes the command return before anything is written; with `--replace` a slot that
+    was never filled is `nil` and `t.Newick()` dereferences it. -/
+def sampleCmd (k : Int) (replace : Bool) (opened : Bool) (items : List (Option α)) (draws : List Nat) :
+    CmdRes α :=
+  if k < 0 then .panic
+  else if !opened then .err
+  else if items.any (·.isNone) then .err
+  else
+    let good := items.filterMap id
+    if replace then
+      let out := sampleReplace k.toNat good draws
+      if out.any (·.isNone) then .panic else .ok (out.filterMap id)
+    else .ok (reservoir k.toNat good draws)
+
+/-- the draws a successful run makes -/
+def sampleCmdScript (k : Int) (replace : Bool) (n : Nat) : List Nat :=
+  if replace then replScript k.toNat n else resScript (· + 1) k.toNat n
+
 /-! ## rand.Perm (Go 1.23 math/rand/rand.go:229) and ShuffleTips -/
 
 /-- `j := r.Intn(i+1); m[i] = m[j]; m[j] = i` with `i = m.length`; the array is
@@ -106,17 +152,27 @@ def goPerm (draws : List Nat) : List Nat := draws.foldl permStep []
 
 def permScript (n : Nat) : List Nat := (List.range n).map (· + 1)
 
-/-- `Tree.AllTipNames()`: a root with one neighbour is reported and the walk stops there. -/
+/-- `Tree.AllTipNames()` (tree.go:548, after 9642e30): the names of the tips in the order of `Tips()`;
+    a root with one neighbour is a tip too and the walk goes on below it. -/
 def allTipNames (t : T) : List String :=
+  (if t.kids.length == 1 then [t.name] else []) ++ leavesL t.kids
+
+/-- before 9642e30: a root with one neighbour was reported and the walk stopped there -/
+def allTipNamesPinned (t : T) : List String :=
   if t.kids.length == 1 then [t.name] else leavesL t.kids
 
 /-- Names of `t.Tips()` after `ShuffleTips`: `tips[i].SetName(names[perm[i]])` for
     `i < len(names)`, the other tips keep their name. -/
-def shuffleTips (t : T) (draws : List Nat) : List String :=
-  let names := allTipNames t
+def shuffleTipsWith (allNames : T → List String) (t : T) (draws : List Nat) : List String :=
+  let names := allNames t
   let tips := t.tipNames
   let p := goPerm (draws.take names.length)
   (p.map fun q => names.getD q "") ++ tips.drop p.length
+
+def shuffleTips (t : T) (draws : List Nat) : List String := shuffleTipsWith allTipNames t draws
+
+/-- `ShuffleTips` before 9642e30 (tip-rooted tree: only the root's own name is "shuffled") -/
+def shuffleTipsPinned (t : T) (draws : List Nat) : List String := shuffleTipsWith allTipNamesPinned t draws
 
 def shuffleScript (t : T) : List Nat := permScript (allTipNames t).length
 
@@ -190,6 +246,25 @@ def rotAllScriptL : Kids → List Nat
   | (_, t) :: r => rotAllScriptT false t ++ rotAllScriptL r
 end
 
+/-- `gotree rotate rand` (cmd/rotate_rand.go): `RotateInternalNodes` on every tree of the input,
+    in file order, the draws running on from one tree to the next -/
+def rotateRandCmd : List T → List Nat → List T
+  | [], _ => []
+  | t :: ts, ds =>
+    let r := rotAllT true t ds
+    r.1 :: rotateRandCmd ts r.2
+
+def rotateRandScript (ts : List T) : List Nat := ts.flatMap (rotAllScriptT true)
+
+/- what a Newick round trip keeps of a tree: everything but parent positions and branch ids -/
+mutual
+def nwViewT : T → T
+  | .node d _ k => .node d 0 (nwViewL k)
+def nwViewL : Kids → Kids
+  | [] => []
+  | (e, t) :: r => ({ e with id := -1 }, nwViewT t) :: nwViewL r
+end
+
 /-! ## RandomUniformBinaryTree (tree/treegen.go:19): the topology
 
   A branch is represented by its *cluster*: the numbers of the tips on its `right`
@@ -226,6 +301,37 @@ def utreeBounds (rooted : Bool) (n : Nat) : List Nat :=
 /-- the full call script, `0` = one `rand.Float64()` (branch lengths through `gostats.Exp`) -/
 def utreeScript (rooted : Bool) (n : Nat) : List Nat :=
   (if rooted then [0, 0] else [0]) ++ (utreeBounds rooted n).flatMap fun b => [b, 0, 0, 0]
+
+/-! ## commands that treat several trees in one run: the draws run on from tree to tree -/
+
+/-- cut a draw list into consecutive segments of the given lengths -/
+def segments : List Nat → List Nat → List (List Nat)
+  | [], _ => []
+  | k :: ks, ds => ds.take k :: segments ks (ds.drop k)
+
+/-- `RotateInternalNodes` seen node by node: `degs` = the numbers of neighbours of the nodes of
+    `Nodes()`; the arrangement of the neighbour positions of every node -/
+def rotAllPerms (degs : List Nat) (draws : List Nat) : List (List Nat) :=
+  ((segments degs draws).zip degs).map fun p => rotate (List.range p.2) p.1
+
+def rotAllPermScript (degs : List Nat) : List Nat := degs.flatMap rotScript
+
+/-- `gotree generate uniformtree -n N -l n [-r]` (cmd/uniformtree.go): `N` calls of
+    `RandomUniformBinaryTree`; the clusters of each tree -/
+def uniformTreeCmd (N n : Nat) (rooted : Bool) (draws : List Nat) : List (List (List Nat)) :=
+  (segments (List.replicate N (n - 2)) draws).map (utree rooted)
+
+def uniformTreeCmdScript (N n : Nat) (rooted : Bool) : List Nat :=
+  (List.replicate N (utreeScript rooted n)).flatten
+
+/-- `gotree shuffletips` on a file of trees: the tip names of each tree after `ShuffleTips` -/
+def shuffleTipsCmd : List T → List Nat → List (List String)
+  | [], _ => []
+  | t :: ts, ds =>
+    let k := (allTipNames t).length
+    shuffleTips t (ds.take k) :: shuffleTipsCmd ts (ds.drop k)
+
+def shuffleTipsCmdScript (ts : List T) : List Nat := ts.flatMap shuffleScript
 
 /-! ## RandomUniformBinaryTree, pointer level (fidelity figure only)
 
@@ -322,5 +428,61 @@ def stripL : Kids → Kids
   | [] => []
   | (_, t) :: r => (EdgeD.blank, stripT t) :: stripL r
 end
+
+/-! ## RandomUniformBinaryTree on the rose tree
+
+  The same function followed on the rose tree rooted at `n2` (the node the construction starts
+  from).  A value model has no pointers: the branch `edges[j]` is designated by its cluster
+  (`utree` keeps, for every entry of the `edges` slice, the cluster of that branch), and
+  `GraftTipOnEdge` rewrites the unique branch that has this cluster: the new inner node gets
+  the neighbours `[n, lnode, rnode]`, i.e. parent position 1 and the children `[n, rnode]`.
+  `Lemmas/C20Rose.lean` proves that the clusters of the branches of this tree are, at every
+  step, exactly the list `utree` keeps; the driver compares the tree with the α dump. -/
+
+def tipName (i : Nat) : String := "Tip" ++ toString i
+
+/-- the cluster (sorted tip numbers) of a set of tip names, among the tips `0 … m-1` -/
+def clN (m : Nat) (S : List String) : List Nat := (List.range m).filter fun q => S.contains (tipName q)
+
+mutual
+/-- `GraftTipOnEdge(x, e)` where `e` is the branch whose cluster (among `m` tips) is `b` -/
+def roseGraft (m : Nat) (b : List Nat) (x : String) : T → T
+  | .node d p ks => .node d p (roseGraftL m b x ks)
+def roseGraftL (m : Nat) (b : List Nat) (x : String) : Kids → Kids
+  | [] => []
+  | (e, c) :: r =>
+    if clN m c.leaves == b then
+      (e, .node ⟨"", []⟩ 1 [(EdgeD.blank, T.leaf x), (EdgeD.blank, c)]) :: r
+    else if subset b (clN m c.leaves) then (e, roseGraft m b x c) :: r
+    else (e, c) :: roseGraftL m b x r
+end
+
+/-- the tree after the first iteration, rooted at `n2` -/
+def roseInit (rooted : Bool) : T :=
+  if rooted then .node ⟨"", []⟩ 0 [(EdgeD.blank, T.leaf (tipName 1)), (EdgeD.blank, T.leaf (tipName 0))]
+  else .node ⟨tipName 0, []⟩ 0 [(EdgeD.blank, T.leaf (tipName 1))]
+
+/-- the loop: the tree and the clusters of the `edges` slice side by side -/
+def roseLoop : List Nat → Nat → T × List (List Nat) → T × List (List Nat)
+  | [], _, s => s
+  | j :: ds, i, (t, E) =>
+    roseLoop ds (i + 1) (roseGraft i (E.getD j []) (tipName i) t, graft E i j)
+
+/-- the tree before `RerootFirst`, rooted at `n2` -/
+def roseTree (rooted : Bool) (draws : List Nat) : T :=
+  (roseLoop draws 2 (roseInit rooted, utreeInit rooted)).1
+
+/-- `RerootFirst` on a tree whose root is the tip `Tip0`: the first node with three neighbours
+    is the root's only neighbour; the root pointer moves there, no neighbour order changes:
+    the old root becomes the child at the position the parent had -/
+def roseReroot : T → T
+  | .node d _ [(e, .node dc pc kc)] =>
+    if kc.length == 2 then .node dc 0 (kc.take pc ++ (e, .node d 0 []) :: kc.drop pc)
+    else .node d 0 [(e, .node dc pc kc)]
+  | t => t
+
+/-- the generated tree (branch data blank) -/
+def roseFinal (rooted : Bool) (draws : List Nat) : T :=
+  if rooted then roseTree rooted draws else roseReroot (roseTree rooted draws)
 
 end Gotree.C20
